@@ -83,6 +83,8 @@ type segment[T TSTable, O any] struct {
 	refCount      int32
 	mustBeDeleted uint32
 	id            segmentID
+	// dirRemoved is set (under mu) once performDelete has removed the directory.
+	dirRemoved bool
 }
 
 func (sc *segmentController[T, O]) openSegment(ctx context.Context, startTime, endTime time.Time, path, suffix string, groupCache *groupCache,
@@ -374,8 +376,15 @@ func (s *segment[T, O]) performDelete() {
 		// retries the delete.
 		return
 	}
+	if s.dirRemoved {
+		// Already deleted by a concurrent delete()/DecRef. The controller may
+		// have created a new segment at the same location since then; removing
+		// the path again would delete that live segment's directory.
+		return
+	}
 	s.closeResourcesLocked()
 	s.lfs.MustRMAll(s.location)
+	s.dirRemoved = true
 }
 
 // delete flags the segment for deletion. If it is dormant (no active reference)
